@@ -37,8 +37,11 @@ def do_call(R, prog):
         R.require(len(lams) >= 1, 'C08: do_call task lambda not found')
         for lam in lams:
             GL = K.build_f(R, prog, lam)
-            usercall = lambda ev: ev.kind == 'call' and ev.e.get('op') == '()' and (ev.recv_path() or '').endswith('call')
-            resume = lambda ev: ev.kind == 'call' and (ev.callee() or '').endswith('::resume')
+            pcall = K.param(f, 0)          # the user callable is do_call's parameter, captured by the task lambda
+            aw = [d['name'] for d in f.decls if d['kind'] == 'local' and 'Awaiter' in (d.get('type') or '')]
+            R.require(len(aw) == 1, 'C08: do_call no longer has exactly one Awaiter local')
+            usercall = lambda ev, pcall=pcall: ev.kind == 'call' and ev.e.get('op') == '()' and re.search(r'(^|[.>])%s$' % re.escape(pcall), ev.recv_path() or '')
+            resume = lambda ev, aw=aw[0]: ev.kind == 'call' and (ev.callee() or '').endswith('::resume') and re.search(r'(^|[.>])%s$' % re.escape(aw), ev.recv_path() or '')
             resl = an.run(GL, [an.SeenTracker([('ran', usercall), ('resumed', resume)])])
             K.check_at(R, P + '.K8', GL, resl, resume, require=lambda st, ev: 'S:ran' in st and 'S:resumed' not in st,
                        key_fn=lambda ev, ctx=ctx: '%s.K8:impl::do_call<%s>::task:call-before-resume' % (P, ctx),
@@ -46,8 +49,6 @@ def do_call(R, prog):
             K.check_at(R, P + '.K7', GL, resl, lambda ev: ev.kind == 'exit', require=lambda st, ev: 'S:ran' in st and 'S:resumed' in st,
                        key_fn=lambda ev, ctx=ctx: '%s.K7:impl::do_call<%s>::task:runs-and-resumes' % (P, ctx),
                        describe=lambda ev: 'task runs the callable and resumes the caller on every path', min_sites=1, what='exit')
-            # the awaiter captured is the one do_call suspends on
-            caps = [lam.show(i) for i in range(len(lam.exprs)) if lam.x(i)['k'] == 'member' and lam.x(i)['name'] == 'aop']
     # awaiters
     pairs = [('photon::Awaiter<photon::PhotonContext>', 'photon::semaphore::signal', 'photon::semaphore::wait'),
              ('photon::Awaiter<photon::AutoContext>', None, None)]
@@ -96,7 +97,12 @@ def dispatcher(R, prog):
     direct = lambda ev: ev.kind == 'call' and ev.callee() == IMPL + '::delegate_helper'
     yielded = lambda ev: ev.kind == 'call' and ev.callee() == 'photon::thread_yield_to'
     recv = lambda ev: ev.kind == 'call' and (ev.callee() or '').endswith('::recv') and 'ring' in (ev.recv_path() or '')
-    inc = lambda ev: ev.kind == 'binop' and ev.e['op'] == '=' and (ev.path(ev.e['l']) or '') == 'running_tasks' and '+ 1' in ev.show(ev.e['r'])
+    cnts = [d['name'] for d in f.decls if d['kind'] == 'local' and re.match(r'^volatile (uint64_t|unsigned long)$', d.get('type') or '')]
+    R.require(len(cnts) == 1, 'C08: main_loop no longer has exactly one volatile running-task counter (found %s)' % cnts)
+    CNT = cnts[0]
+    tasks = K.local_names_init_by(f, lambda e, i: e['k'] == 'call' and strip_targs(e.get('fn') or '').endswith('::recv'))
+    R.require(len(tasks) >= 1, 'C08: main_loop no longer stores the result of ring->recv in a local')
+    inc = lambda ev: ev.kind == 'binop' and ev.e['op'] == '=' and (ev.path(ev.e['l']) or '') == CNT and '+ 1' in ev.show(ev.e['r'])
     seen = an.SeenTracker([('created', created), ('yielded', yielded, ('created',)), ('inc', inc), ('recv', recv, ('inc',)),
                            ('reg', lambda ev: ev.kind == 'call' and ev.callee() == IMPL + '::add_vcpu')])
     res = an.run(G, [seen, an.GuardTracker(lambda k: True)])
@@ -111,11 +117,11 @@ def dispatcher(R, prog):
                key_fn=lambda ev: P + '.K8:impl::main_loop:count-before-start',
                describe=lambda ev: 'running_tasks incremented before the task is started (all three modes)', min_sites=3, what='task start')
     K.check_at(R, P + '.K6', G, res, lambda ev: ev.kind == 'exit',
-               require=lambda st, ev: 'G:running_tasks=F' in st and any(re.match(r'^G:task(\.operator bool\(\))?=F$', x) or re.match(r'^G:!?task.*=F$', x) for x in st),
+               require=lambda st, ev: ('G:%s=F' % CNT) in st and any(('G:%s=F' % t) in st or ('G:%s.operator bool()=F' % t) in st for t in tasks),
                key_fn=lambda ev: P + '.K6:impl::main_loop:leave-only-on-stop-marker-after-drain',
                describe=lambda ev: 'the loop is left only on an empty (stop) task and the function returns only after running_tasks drained to 0', min_sites=1, what='exit')
     K.check_at(R, P + '.K8', G, res, lambda ev: ev.kind == 'call' and ev.callee() == IMPL + '::remove_vcpu',
-               require=lambda st, ev: 'G:running_tasks=F' in st,
+               require=lambda st, ev: ('G:%s=F' % CNT) in st,
                key_fn=lambda ev: P + '.K8:impl::main_loop:deregister-only-after-drain',
                describe=lambda ev: 'the vCPU leaves the registry (which ~impl waits on) only after its running tasks drained', min_sites=1, what='remove_vcpu')
     K.check_at(R, P + '.K8', G, res, recv, require=lambda st, ev: 'S:reg' in st,
